@@ -41,7 +41,10 @@ CHECKS = {
     "C10": {"parts": [FLOW, preempt(["pkg/lifecycle/service.go", "pkg/lifecycle-poc/service.go"])]},
     "C11": {"parts": [FLOW, preempt(["pkg/lifecycle/service.go", "pkg/lifecycle-poc/service.go"])]},
     "C13": {"parts": [FLOW, preempt(["pkg/lifecycle/stream/processor.go"])]},
-    "C16": {"parts": [FLOW, preempt(["pkg/provisioning/lock.go", "pkg/provisioning/plan.go"])]},
+    "C16": {"parts": [FLOW, preempt(["pkg/provisioning/lock.go", "pkg/provisioning/plan.go"]),
+                      # the per-pipeline apply lock on its own: every arrival/leave order of 2-5 callers + one preemption at every statement
+                      {"name": "keyed-lock", "pkg": "pkg/provisioning", "harness": "c16lock", "run": "^TestVerifC16Lock$", "instrument": True,
+                       "points": ["pkg/provisioning/lock.go"], "gomaxprocs": 1, "shards": 4, "shards_thorough": 16}]},
     "C09": {"rule": "conditional processor: inputs<=4 x all match patterns x output length 0..kept+1 x kind vectors x slice capacity; sandbox: plugin behaviours x context states; reply shapes of processors, destinations and sources explored as answers of the scripted plugins on the real full stack",
             "parts": [{"name": "condmerge", "pkg": "pkg/verifc09", "harness": "c09cond", "run": "^TestVerifC09Cond$"},
                       {"name": "sandbox", "pkg": "pkg/plugin/connector/builtin", "harness": "c09sandbox", "run": "^TestVerifC09Sandbox$", "instrument": True},
